@@ -41,6 +41,7 @@ pub fn run(unit: &str, ctx: &Ctx, rng: &mut Rng, o: &mut Out) -> bool {
     "print" => print::print(ctx, rng, o),
     "jsonframe" => print::jsonframe(ctx, rng, o),
     "c16_cli" => print::cli_unit(ctx, rng, o),
+    "injected_positions" => print::injected_positions(ctx, rng, o),
     "suppress_parse" => suppress::suppress_parse(ctx, rng, o),
     "suppress_scan" => suppress::suppress_scan(ctx, rng, o),
     "suppress_cli" => suppress::suppress_cli(ctx, rng, o),
